@@ -193,3 +193,173 @@ class Detached:
                 p.wait(timeout=5)
             except Exception:
                 pass
+
+
+# ------------------------------------------------------- stress (no faults)
+def stress_case(case: dict, expected: list[Any], grace: float = 30.0) -> dict:
+    """Runs one real-process stress case (vlib/procnet_stress_child.py) and
+    watches it from outside. `expected[i]` is the value the documented
+    semantics give tree i. Returns a record with `witness` (violations),
+    `inconclusive` (reason, if the case could not be decided) and counters.
+    A hang is only called when the client call has not returned within
+    `grace` seconds AND every runtime process and the client are asleep with
+    unchanged CPU time over three samples."""
+    import json
+    import select
+    import tempfile
+    ROOT_ = ROOT
+    rec: dict[str, Any] = {'witness': [], 'events': [], 'returned': 0, 'correct': 0}
+    t0 = time.monotonic()
+    inject = os.path.join(ROOT_, 'vlib', 'inject')
+    env = dict(case.get('env') or {})
+    pp = inject + os.pathsep + ROOT_
+    if os.environ.get('PYTHONPATH'):
+        pp += os.pathsep + os.environ['PYTHONPATH']
+    env['PYTHONPATH'] = pp
+    case = dict(case, env=env)
+    fd, path = tempfile.mkstemp(prefix='verif-stress-', suffix='.json')
+    with os.fdopen(fd, 'w') as f:
+        json.dump(case, f)
+    child = subprocess.Popen(
+        [sys.executable, os.path.join(ROOT_, 'vlib', 'procnet_stress_child.py'), path],
+        stdout=subprocess.PIPE, stderr=subprocess.DEVNULL, cwd=ROOT_, start_new_session=True,
+    )
+    roots: list[int] = []
+
+    def runtime_pids() -> list[int]:
+        out = []
+        for r in roots:
+            out.append(r)
+            out += descendants(r)
+        return [p for p in out if alive(p)]
+
+    buf = b''
+    state = 'starting'
+    t_state = time.monotonic()
+    norm = lambda v: json.loads(json.dumps(v))  # noqa: E731
+    try:
+        while True:
+            r, _, _ = select.select([child.stdout], [], [], 1.0)
+            if r:
+                chunk = os.read(child.stdout.fileno(), 1 << 20)
+                if not chunk:
+                    break
+                buf += chunk
+                while b'\n' in buf:
+                    line, buf = buf.split(b'\n', 1)
+                    try:
+                        ev = json.loads(line)
+                    except ValueError:
+                        continue
+                    if len(rec['events']) < 40:
+                        rec['events'].append({k: v for k, v in ev.items() if k != 'value'})
+                    t_state = time.monotonic()
+                    if ev['ev'] in ('up', 'spawned'):
+                        roots = list(ev['roots'])
+                        if ev['ev'] == 'up':
+                            state = 'up'
+                    elif ev['ev'] == 'calling':
+                        state = 'calling:' + ev['label']
+                    elif ev['ev'] == 'cancelled':
+                        rec['cancelled'] = rec.get('cancelled', 0) + 1
+                    elif ev['ev'] == 'tables':
+                        rec.setdefault('tables', []).append({k: v for k, v in ev.items() if k != 'ev'})
+                    elif ev['ev'] == 'probe':
+                        rec['switch_interval_seen'] = ev.get('switch_interval')
+                    elif ev['ev'] == 'ret':
+                        rec['returned'] += 1
+                        k = int(ev['idx'])
+                        if ev['outcome'] == 'value':
+                            if norm(ev.get('value')) == norm(expected[k]):
+                                rec['correct'] += 1
+                            else:
+                                rec['witness'].append({'kind': 'value:wrong_result:real_processes', 'tree': k, 'got': ev.get('value'), 'want': expected[k]})
+                        else:
+                            rec['witness'].append({'kind': 'error:spurious:real_processes', 'tree': k, 'msg': ev.get('msg', '')[-500:], 'site': _site(ev.get('msg', ''))})
+                    elif ev['ev'] == 'closed':
+                        state = 'closed'
+                        if ev.get('error'):
+                            rec['witness'].append({'kind': 'error:close_raised:real_processes', 'msg': ev['error']})
+                continue
+            waited = time.monotonic() - t_state
+            if state == 'starting' and waited > 150:
+                rec['inconclusive'] = 'runtime did not come up in 150s'
+                break
+            if state.startswith('calling') and waited > grace:
+                live = runtime_pids() + [child.pid]
+                if all_sleeping(live):
+                    rec['witness'].append({
+                        'kind': 'hang:client_blocked:real_processes', 'state': state.split('@')[0],
+                        'surviving_runtime_processes': len(live) - 1, 'waited_s': round(waited, 1), 'returned_before': rec['returned'],
+                    })
+                    break
+                if waited > 6 * grace:
+                    rec['inconclusive'] = 'client call still running with busy processes after %.0fs' % waited
+                    break
+        if state in ('starting',) and 'inconclusive' not in rec:
+            rec['inconclusive'] = 'runtime did not come up (child exited during start-up)'
+        elif state != 'closed' and not rec['witness'] and 'inconclusive' not in rec:
+            rec['inconclusive'] = 'client process ended in state %s' % state
+        if rec.get('tables'):
+            last = rec['tables'][-1]
+            if last.get('error'):
+                rec['witness'].append({'kind': 'error:spurious:real_processes', 'tree': 'table-probe', 'msg': last['error'], 'site': _site(last['error'])})
+            elif last.get('tables'):
+                t = last['tables']
+                per: dict[int, dict[str, int]] = {}
+                for wid, nstale, sample, nbox, ndelayed in t['leaves']:
+                    own = 1 if wid == t['root_worker'] else 0
+                    d = per.setdefault(int(wid), {'tasks': 0, 'mailboxes': 0, 'delayed': 0})
+                    # minimum over the leaves that ran on this worker (a
+                    # leaf may see a sibling leaf's transient state)
+                    d['tasks'] = nstale if 'n' not in d else min(d['tasks'], nstale)
+                    d['mailboxes'] = max(0, nbox - own) if 'n' not in d else min(d['mailboxes'], max(0, nbox - own))
+                    d['delayed'] = ndelayed if 'n' not in d else min(d['delayed'], ndelayed)
+                    d['n'] = d.get('n', 0) + 1
+                rec['workers_probed'] = len(per)
+                rec['probe_attempts'] = len(rec['tables'])
+                for wid, d in sorted(per.items()):
+                    for what in ('tasks', 'mailboxes', 'delayed'):
+                        if d[what] > 0:
+                            rec['witness'].append({
+                                'kind': 'leak:worker_%s:real_processes' % what, 'worker': wid, 'count': d[what],
+                                'attempts': len(rec['tables']), 'cancelled_compilations': rec.get('cancelled', 0),
+                            })
+        if state == 'closed' and case.get('topology') == 'attached':
+            # an attached runtime ends with its client (a detached one is
+            # meant to stay up)
+            t1 = time.monotonic()
+            left = runtime_pids()
+            while left and time.monotonic() - t1 < 25:
+                time.sleep(0.25)
+                left = runtime_pids()
+            if left:
+                rec['witness'].append({'kind': 'survivor:runtime_process_after_close:real_processes', 'count': len(left)})
+        rec['state'] = state
+    finally:
+        for p in runtime_pids():
+            try:
+                os.kill(p, signal.SIGKILL)
+            except OSError:
+                pass
+        try:
+            os.killpg(child.pid, signal.SIGKILL)
+        except OSError:
+            pass
+        try:
+            child.wait(timeout=10)
+        except Exception:
+            pass
+        try:
+            os.unlink(path)
+        except OSError:
+            pass
+        rec['wall'] = round(time.monotonic() - t0, 2)
+    return rec
+
+
+def _site(text: str) -> str:
+    """Last bqskit source site named in a formatted traceback text."""
+    import re
+    m = re.findall(r'File "[^"]*?/(bqskit/[^"]+)", line \d+, in (\w+)', text or '')
+    return '%s:%s' % m[-1] if m else ''
